@@ -469,6 +469,10 @@ func (mr *msgReader) Read(p []byte) (n int, err error) {
 			}
 		}
 		mr.putFlateReader()
+		// A stream that ended with a final block has not consumed the tail
+		// appended for flate: it is no part of the message and must not be
+		// handed out (or enter the window) if the caller reads again.
+		mr.flateTail.Reset("")
 		return n, io.EOF
 	}
 	if err != nil {
